@@ -29,7 +29,7 @@ pub fn gen_case3(prop: &str, seed: u64, thorough: bool, rng: &mut Rng) -> Case {
             // by GC is where in-memory and on-storage metadata can disagree
             let mut k = 0;
             while k < ops.len() {
-                if matches!(ops[k], Op::Merge { .. } | Op::MergeWait) && rng.chance(1, 3) {
+                if (matches!(ops[k], Op::Merge { .. } | Op::MergeWait) && rng.chance(1, 2)) || (matches!(ops[k], Op::Commit) && rng.chance(1, 6)) {
                     ops.insert(k + 1, Op::Gc);
                     k += 1;
                 } else if cfg.n_readers > 0 && rng.chance(1, 5) {
@@ -56,8 +56,24 @@ pub fn fault_variants(base: &Case, base_out: &RunOut, setup_ops: u64, thorough: 
         let span = n - setup_ops;
         (0..24u64).map(|j| setup_ops + j * span / 24 + rng.below((span / 24).max(1))).collect()
     };
-    ks.dedup();
+    // faults are biased towards the commit point: every replacement of meta.json and every directory
+    // sync of the workload phase is a fault point too (quick tier: up to 12 of them)
+    let mut cps = base_out.commit_point_ops.clone();
+    if !thorough && cps.len() > 12 {
+        rng.shuffle(&mut cps);
+        cps.truncate(12);
+    }
     let mut v = vec![];
+    if !thorough {
+        for k in &cps {
+            let mut c = base.clone();
+            let mode = if rng.chance(2, 3) { FailMode::Once } else { FailMode::FromOn };
+            c.cfg.faults.fails = vec![FailSpec { at: *k, mode }];
+            v.push(c);
+        }
+    }
+    ks.retain(|k| thorough || !cps.contains(k));
+    ks.dedup();
     for k in ks {
         let modes: Vec<FailMode> = if thorough {
             vec![FailMode::Once, FailMode::FromOn, FailMode::Enospc]
